@@ -407,6 +407,51 @@ def forwardOp (h : Heap) (kind : Kind) (vars : List Nat) : Except Err (Heap × A
     | .error e => .error e
     | .ok v => let (h, a) := h.newArr v; .ok (h, a, none)
 
+/-- the `.grad` property.  For a view it replays the creator's view op on the parent's `.grad`
+and caches the result in `_view_grad`; the cache is valid while it is a view of the *current*
+`_grad` array of the base (`self._view_grad.base is self._base._grad`).  Reading the property
+therefore changes the heap. -/
+def gradPropObj (fuel : Nat) (h : Heap) (t : Nat) : Heap × Option (Val × Nat) :=
+  match fuel with
+  | 0 => (h, none)
+  | fuel + 1 =>
+    let tt := h.t t
+    match tt.base with
+    | none => (h, tt.grad.map fun g => (g, tt.gradObj))
+    | some b =>
+      let tb := h.t b
+      -- a non-constant view of a constant base owns its gradient; a constant view has none
+      if tb.const then (h, tt.grad.map fun g => (g, tt.gradObj))
+      else if tt.const then (h, none)
+      else
+      let cached : Option (Val × Nat) := match tt.viewGrad with
+        | some (v, o) => if tb.grad.isSome ∧ o = tb.gradObj then some (v, o) else none
+        | none => none
+      match cached with
+      | some v => (h, some v)
+      | none =>
+        if tb.grad.isNone then (h, none)
+        else match tt.creator with
+          | none => (h, none)
+          | some f =>
+            let o := h.op f
+            -- the parent's gradient, together with the identity of the array it is (a view of)
+            let (h, pg) := gradPropObj fuel h (o.vars.getD 0 0)
+            let r : Option (Val × Nat) := match pg, o.kind with
+              | some (pg, src), .view vf =>
+                match vf.indexMap pg.1 with
+                | .ok (sh, ps) => some ((sh, gather ps pg.2), src)
+                | .error _ => none
+              | _, _ => none
+            (h.modT t ({ · with viewGrad := r }), r)
+
+/-- the public `.grad` property -/
+def gradProp (fuel : Nat) (h : Heap) (t : Nat) : Heap × Option Val :=
+  let (h, r) := gradPropObj fuel h t
+  (h, r.map (·.1))
+
+def Heap.fuel (h : Heap) : Nat := h.next + 2
+
 /-- create the result tensor object and, for a view, register it among its parent's view children -/
 def attachResult (h : Heap) (x : Tens) (parent : Option Nat) : Heap × Nat :=
   let (h, o) := h.fresh
@@ -424,7 +469,12 @@ def prepInputs (h : Heap) (userTensors : List Nat) (parent : Option Nat) : Heap 
     | none => (h, none)
     | some p =>
       let pt := h.t p
-      let h := if pt.base.isSome ∧ pt.creator.isNone then h.modT p ({ · with base := none }) else h
+      -- a view being disconnected from its base keeps reporting the gradient it reports now (a copy of it)
+      let h := if pt.base.isSome ∧ pt.creator.isNone then
+          let (h, g) := gradPropObj h.fuel h p
+          h.modT p fun t => { t with base := none, grad := g.map (·.1), gradObj := (g.map (·.2)).getD t.gradObj,
+                                      viewGrad := none }
+        else h
       let pt := h.t p
       (h, some (pt.base.getD p))
   let h := userTensors.foldl (fun h v =>
@@ -563,51 +613,6 @@ def opBackward (h : Heap) (f : Nat) (g : Val) (gr : GMap) : GMap × Option Err :
   foldErr (List.range o.vars.length) gr fun gr index => opBackwardVar h o g gr index
 
 /-! ## `clear_graph`, `.grad` -/
-
-/-- the `.grad` property.  For a view it replays the creator's view op on the parent's `.grad`
-and caches the result in `_view_grad`; the cache is valid while it is a view of the *current*
-`_grad` array of the base (`self._view_grad.base is self._base._grad`).  Reading the property
-therefore changes the heap. -/
-def gradPropObj (fuel : Nat) (h : Heap) (t : Nat) : Heap × Option (Val × Nat) :=
-  match fuel with
-  | 0 => (h, none)
-  | fuel + 1 =>
-    let tt := h.t t
-    match tt.base with
-    | none => (h, tt.grad.map fun g => (g, tt.gradObj))
-    | some b =>
-      let tb := h.t b
-      -- a non-constant view of a constant base owns its gradient; a constant view has none
-      if tb.const then (h, tt.grad.map fun g => (g, tt.gradObj))
-      else if tt.const then (h, none)
-      else
-      let cached : Option (Val × Nat) := match tt.viewGrad with
-        | some (v, o) => if tb.grad.isSome ∧ o = tb.gradObj then some (v, o) else none
-        | none => none
-      match cached with
-      | some v => (h, some v)
-      | none =>
-        if tb.grad.isNone then (h, none)
-        else match tt.creator with
-          | none => (h, none)
-          | some f =>
-            let o := h.op f
-            -- the parent's gradient, together with the identity of the array it is (a view of)
-            let (h, pg) := gradPropObj fuel h (o.vars.getD 0 0)
-            let r : Option (Val × Nat) := match pg, o.kind with
-              | some (pg, src), .view vf =>
-                match vf.indexMap pg.1 with
-                | .ok (sh, ps) => some ((sh, gather ps pg.2), src)
-                | .error _ => none
-              | _, _ => none
-            (h.modT t ({ · with viewGrad := r }), r)
-
-/-- the public `.grad` property -/
-def gradProp (fuel : Nat) (h : Heap) (t : Nat) : Heap × Option Val :=
-  let (h, r) := gradPropObj fuel h t
-  (h, r.map (·.1))
-
-def Heap.fuel (h : Heap) : Nat := h.next + 2
 
 /-- `Tensor.clear_graph` (recursive; `_creator = None` marks a tensor as visited) -/
 def clearGraph (fuel : Nat) (h : Heap) (t : Nat) : Heap :=
